@@ -59,6 +59,10 @@ pub struct Case {
     /// another module (1), additionally the program headers are declared absent (2)
     #[serde(default)]
     pub direct_auxv: u8,
+    /// 22..27 parked threads and a size limit this many bytes (mod 3 "fixed parts") above the writer's
+    /// estimate threshold: the limit must mean the same for every request
+    #[serde(default)]
+    pub near_threshold: Option<u16>,
 }
 
 pub fn check(c: &Case) -> Verdict {
@@ -68,12 +72,16 @@ pub fn check(c: &Case) -> Verdict {
     let mut stacks = vec![];
     let mut parked_ids = vec![];
     let mut exiter_ids = vec![];
-    for i in 0..(c.parked % 6 + 1) {
+    let n_parked = match c.near_threshold {
+        Some(d) => 22 + (d % 6) as u8,
+        None => c.parked % 6 + 1,
+    };
+    for i in 0..n_parked {
         let st = b.add_stack(2, true, 40 + i as u64);
         let sp = st.base + 0x1000 + 24 * i as u64;
         let id = b.add_thread(K_PARKED, Some(format!("p{i}").into_bytes()), sp, 900 + i as u64);
         // a pointer into the next thread's stack, so that skip-unreferenced has something to find
-        b.spec.pokes.push((sp + 16, STACK_AREA + ((i as u64 + 1) % (c.parked as u64 % 6 + 1)) * STACK_STRIDE + 0x20_0000 + 64));
+        b.spec.pokes.push((sp + 16, STACK_AREA + ((i as u64 + 1) % (n_parked as u64)) * STACK_STRIDE + 0x20_0000 + 64));
         stacks.push(st);
         parked_ids.push(id);
     }
@@ -107,9 +115,18 @@ pub fn check(c: &Case) -> Verdict {
         let a = crate::props::c01::true_auxv(pid);
         other.map(|e| if c.direct_auxv % 3 == 1 { [a[0], a[1], 0, e] } else { [a[0], a[1], a[2], e] })
     };
+    let size_limit: Option<u64> = match c.near_threshold {
+        Some(d) => {
+            // the writer's estimate: position after the thread list + 8 KiB per thread + 64 KiB
+            let n = 1 + n_parked as u64 + (c.exiters % 3) as u64;
+            let fixed = 252 + 48 * n;
+            Some(fixed + 8192 * n + 65536 + 1 + (d as u64 * 37) % (3 * fixed))
+        }
+        None => c.limit.map(|l| l as u64 + 60_000),
+    };
     let opts_of = |s: &Step| -> DumpOpts {
         let blamed = if s.blamed_foreign { std::process::id() as i32 } else { tids[pick(s.blamed, tids.len())] };
-        let mut o = DumpOpts { blamed, sanitize: s.sanitize, skip_unreferenced: s.skip, size_limit: c.limit.map(|l| l as u64 + 60_000), direct_auxv: direct, ..Default::default() };
+        let mut o = DumpOpts { blamed, sanitize: s.sanitize, skip_unreferenced: s.skip, size_limit: size_limit, direct_auxv: direct, ..Default::default() };
         if s.crash {
             let mut sd = 7u64;
             let mut gregs: Vec<i64> = (0..23).map(|_| splitmix(&mut sd) as i64).collect();
@@ -316,8 +333,8 @@ pub fn run(ctx: &mut LaneCtx) {
         SubSpec {
             name: "reuse-history",
             cases: (960, 15_000),
-            rule: "one writer (optionally configured with caller-supplied auxiliary-vector values that differ from the kernel's: entry address in another module), 2..5 dump() calls, some of which are made to fail (destination I/O error at a generated call, unreadable app memory); between calls the public configuration (blamed thread, crash context on/off, app memory, principal address, skip, sanitize) may change or the writer is left untouched, and the target may change (an exiter thread is cued; the last page of the application mapping - into which registered regions may run - becomes inaccessible or accessible again); after each call a freshly configured writer dumps the same blocked target; oracle = strict structure of both + normal-form equality; non-trivial = >= 2 calls with a memory-producing option or a change between calls; distinct = hash of case",
-            strategy: (0u8..6, 0u8..3, proptest::option::weighted(0.3, 0u32..20_000), proptest::collection::vec(step_strategy(), 2..6), prop_oneof![2 => Just(0u8), 1 => 1u8..3]).prop_map(|(parked, exiters, limit, steps, direct_auxv)| Case { parked, exiters, limit, steps, direct_auxv }).boxed(),
+            rule: "one writer (optionally configured with caller-supplied auxiliary-vector values that differ from the kernel's: entry address in another module; optionally with 22..27 threads and a size limit just above the estimate threshold), 2..5 dump() calls, some of which are made to fail (destination I/O error at a generated call, unreadable app memory); between calls the public configuration (blamed thread, crash context on/off, app memory, principal address, skip, sanitize) may change or the writer is left untouched, and the target may change (an exiter thread is cued; the last page of the application mapping - into which registered regions may run - becomes inaccessible or accessible again); after each call a freshly configured writer dumps the same blocked target; oracle = strict structure of both + normal-form equality; non-trivial = >= 2 calls with a memory-producing option or a change between calls; distinct = hash of case",
+            strategy: (0u8..6, 0u8..3, proptest::option::weighted(0.3, 0u32..20_000), proptest::collection::vec(step_strategy(), 2..6), prop_oneof![2 => Just(0u8), 1 => 1u8..3], proptest::option::weighted(0.15, any::<u16>())).prop_map(|(parked, exiters, limit, steps, direct_auxv, near_threshold)| Case { parked, exiters, limit, steps, direct_auxv, near_threshold }).boxed(),
             max_shrink_iters: 100,
             log_current: true,
         },
